@@ -26,8 +26,8 @@ PLAN = {
                 thorough=[("rt", "release", 1500000), ("rawrt", "release", 400000)],
                 assumptions=["frame boundaries come from refflac"]),
     "C17": dict(level="exploration", rule=RT_RULE,
-                quick=[("rt", "release", 30000), ("dmg", "release", 150), ("dmgcat", "release", 150), ("synth", "release", 20000)],
-                thorough=[("rt", "release", 1000000), ("dmg", "release", 4000), ("dmgcat", "release", 4000), ("synth", "release", 1500000), ("synth", "checked", 200000)],
+                quick=[("rt", "release", 30000), ("dmg", "release", 150), ("dmgcat", "release", 150), ("synth", "release", 20000), ("bent", "release", 12000)],
+                thorough=[("rt", "release", 1000000), ("dmg", "release", 4000), ("dmgcat", "release", 4000), ("synth", "release", 1500000), ("synth", "checked", 200000), ("bent", "release", 1000000), ("bent", "checked", 200000)],
                 assumptions=[]),
     "C13": dict(level="fault_enumeration",
                 rule=("each run draws one transaction (encode+finalize through a writer front-end on a raw / caller-buffered / "
@@ -110,8 +110,8 @@ PLAN = {
                       "entry points in rotation; one (damaged file, entry point) = one evaluation; monitors: panic/abort, hang "
                       "(EOF-poll and event budgets), peak allocation <= 64 MiB + 16 x input; both profiles"),
                 exhaustive_subspaces=["per corpus file <= 700 bytes: all single-bit flips, all truncation lengths, all 16-byte sectors"],
-                quick=[("dmg", "release", 130), ("dmg", "checked", 130), ("dmgcat", "release", 40), ("dmgcat", "checked", 40), ("synth", "release", 6000), ("synth", "checked", 6000)],
-                thorough=[("dmg", "release", 2500), ("dmg", "checked", 2500), ("dmgcat", "release", 2000), ("dmgcat", "checked", 2000), ("synth", "release", 500000), ("synth", "checked", 500000)],
+                quick=[("dmg", "release", 130), ("dmg", "checked", 130), ("dmgcat", "release", 40), ("dmgcat", "checked", 40), ("synth", "release", 6000), ("synth", "checked", 6000), ("bent", "release", 5000), ("bent", "checked", 5000)],
+                thorough=[("dmg", "release", 2500), ("dmg", "checked", 2500), ("dmgcat", "release", 2000), ("dmgcat", "checked", 2000), ("synth", "release", 500000), ("synth", "checked", 500000), ("bent", "release", 300000), ("bent", "checked", 300000)],
                 assumptions=["restricted claim: only byte strings that storage/transport faults derive from valid files, not all byte strings"]),
     "C05": dict(level="fault_enumeration",
                 rule=("same corpus; coordinates: every single-bit flip inside the audio frames and the stored MD5, every truncation "
@@ -119,8 +119,8 @@ PLAN = {
                       "reader front-ends in rotation and through verify_reader; refflac judges the altered bytes; dmgcat = must-reject "
                       "catalogue through all 10 readers and verify_reader; one (damaged file, reader) = one evaluation"),
                 exhaustive_subspaces=["per corpus file <= 700 bytes: all single-bit flips in the frame region and the digest, all truncation lengths"],
-                quick=[("dmg", "release", 220), ("dmgcat", "release", 150)],
-                thorough=[("dmg", "release", 6000), ("dmg", "checked", 1000), ("dmgcat", "release", 5000)],
+                quick=[("dmg", "release", 220), ("dmgcat", "release", 150), ("bent", "release", 12000)],
+                thorough=[("dmg", "release", 6000), ("dmg", "checked", 1000), ("dmgcat", "release", 5000), ("bent", "release", 1000000), ("bent", "checked", 100000)],
                 assumptions=["refflac decides whether altered bytes happen to be another valid stream",
                              "checksum-consistent random edits are not judged for silent acceptance (C03's question)"]),
     "C10": dict(level="exploration",
@@ -191,6 +191,12 @@ EXPECT = {
   "zero_width_partition"
  ],
  "C04": [
+  "bent_frame_built",
+  "bent_frame_invalid_per_refflac",
+  "bent_frame_still_valid_per_refflac",
+  "bent_porder_more_partitions_than_samples",
+  "bent_porder_not_dividing_block",
+  "bent_porder_partition_shorter_than_order",
   "catalogue_entry",
   "dmg_double_flip",
   "dmg_fixture_file",
@@ -220,6 +226,13 @@ EXPECT = {
   "trunc_on_frame_boundary"
  ],
  "C05": [
+  "bent_frame_built",
+  "bent_frame_invalid_per_refflac",
+  "bent_frame_still_valid_per_refflac",
+  "bent_porder_more_partitions_than_samples",
+  "bent_porder_not_dividing_block",
+  "bent_porder_partition_shorter_than_order",
+  "bent_must_reject",
   "c05_crc_collision_frame_accepted_by_both",
   "c05_md5_mismatch_reported",
   "catalogue_entry",
@@ -372,6 +385,20 @@ EXPECT = {
   "c16_sync_split_across_refill"
  ],
  "C17": [
+  "bent_frame_built",
+  "bent_frame_invalid_per_refflac",
+  "bent_frame_still_valid_per_refflac",
+  "bent_porder_more_partitions_than_samples",
+  "bent_porder_not_dividing_block",
+  "bent_porder_partition_shorter_than_order",
+  "bent_accepted_by_both_raw_readers",
+  "bent_rejected_by_both_raw_readers",
+  "bent_accepted_frame_reserialised_identically",
+  "bent.residual_extreme.rejected_by_both",
+  "bent.long_unary.accepted_by_both",
+  "bent.coef_extreme.accepted_by_both",
+  "bent.order_gt_block.rejected_by_both",
+  "bent.wasted_ge_bits.rejected_by_both",
   "c17_canonical_frame",
   "c17_shortblock_excluded",
   "catalogue_entry",
